@@ -90,7 +90,9 @@ pub(crate) fn k_new_unmasked() -> Result<ProcfsHandle, Error> {
         let mnt = if e.mnt_mask & 0x5000 != 0 { Some(e.mnt_id) } else { None };
         // the new handle may itself be masked (unprivileged caller on a
         // hidepid/subset host ends up on the same host mount again)
-        Ok(ProcfsHandle::verif_make(fd, mnt, kani::any(), kani::any()))
+        let sw = crate::verif_kani::kernel::scratch_get().0;
+        let masked_again = if sw == 1 { false } else if sw == 2 { true } else { kani::any() };
+        Ok(ProcfsHandle::verif_make(fd, mnt, masked_again, kani::any()))
     }
 }
 
@@ -266,7 +268,7 @@ fn access_failed() -> bool {
 macro_rules! tff_h {
     ($name:ident, $plan:expr) => {
         #[kani::proof]
-        #[kani::unwind(8)]
+        #[kani::unwind(18)]
         #[kani::stub(crate::syscalls::fstatfs, k_fstatfs)]
         #[kani::stub(crate::syscalls::statx, k_statx)]
         #[kani::stub(crate::syscalls::openat2, k_openat2)]
@@ -294,9 +296,26 @@ fn sym_subpath() -> ([u8; PATH_L], usize) {
 }
 
 fn open_body(masked: bool) {
+    open_body_s(masked, [P_ANY; 13], 0, 0)
+}
+
+/// plan: fault plan of the (up to) 13 fallible steps of one lookup with one retry:
+///   [0] base lookup [1] statx(base) [2] fstatfs(base) [3] sub-path lookup [4] statx(fd) [5] fstatfs(fd)
+///   [6] new_unmasked  [7..12] the same six on the retry handle
+fn open_body_s(masked: bool, plan: [u8; 13], fixed_errno: i32, retry_handle: u64) {
     install_close_model();
     reset(3);
     crate::verif_kani::kernel::counter_reset();
+    crate::verif_kani::kernel::scratch_set(retry_handle, 0, 0, 0);
+    {
+        let k = kmut();
+        let mut i = 0;
+        while i < 13 {
+            k.plan[i] = plan[i];
+            i += 1;
+        }
+        k.fixed_errno = fixed_errno;
+    }
     let hfd = given_fd(false);
     let hmnt: Option<u64> = kani::any();
     let h = ProcfsHandle::verif_make(hfd, hmnt, masked, kani::any());
@@ -382,7 +401,7 @@ fn leaked_private() -> usize {
 macro_rules! open_h {
     ($name:ident, $masked:expr) => {
         #[kani::proof]
-        #[kani::unwind(8)]
+        #[kani::unwind(18)]
         #[kani::stub(crate::resolvers::procfs::ProcfsResolver::resolve, k_proc_resolve)]
         #[kani::stub(crate::procfs::ProcfsBase::into_path, k_into_path)]
         #[kani::stub(crate::procfs::ProcfsHandle::new_unmasked, k_new_unmasked)]
@@ -396,6 +415,34 @@ macro_rules! open_h {
 }
 open_h!(procfs_open_unmasked, false);
 open_h!(procfs_open_masked, true);
+
+macro_rules! open_s {
+    ($name:ident, $masked:expr, $plan:expr, $errno:expr, $rh:expr) => {
+        #[kani::proof]
+        #[kani::unwind(18)]
+        #[kani::stub(crate::resolvers::procfs::ProcfsResolver::resolve, k_proc_resolve)]
+        #[kani::stub(crate::procfs::ProcfsBase::into_path, k_into_path)]
+        #[kani::stub(crate::procfs::ProcfsHandle::new_unmasked, k_new_unmasked)]
+        #[kani::stub(crate::syscalls::fstatfs, k_fstatfs)]
+        #[kani::stub(crate::syscalls::statx, k_statx)]
+        #[kani::stub(alloc::fmt::format, k_format)]
+        fn $name() {
+            open_body_s($masked, $plan, $errno, $rh);
+        }
+    };
+}
+const OK6: [u8; 13] = [P_OK, P_OK, P_OK, P_OK, P_OK, P_OK, P_ANY, P_ANY, P_ANY, P_ANY, P_ANY, P_ANY, P_ANY];
+const SUBFAIL: [u8; 13] = [P_OK, P_OK, P_OK, P_FAIL, P_ANY, P_ANY, P_ANY, P_ANY, P_ANY, P_ANY, P_ANY, P_ANY, P_ANY];
+const RETRY_OK: [u8; 13] = [P_OK, P_OK, P_OK, P_FAIL, P_ANY, P_ANY, P_OK, P_OK, P_OK, P_OK, P_OK, P_OK, P_OK];
+const RETRY_ENOENT: [u8; 13] = [P_OK, P_OK, P_OK, P_FAIL, P_ANY, P_ANY, P_OK, P_OK, P_OK, P_OK, P_FAIL, P_ANY, P_ANY];
+// every kernel step answers Ok; mount ids / fs types stay symbolic (EXDEV vs success decided by the solver)
+open_s!(procfs_open_okpath, false, OK6, 0, 0);
+// the sub-path lookup fails with an arbitrary errno on an unmasked handle: no retry, clean error
+open_s!(procfs_open_lookup_fails, false, SUBFAIL, 0, 0);
+// masked handle, lookup says ENOENT, retry on an unmasked handle succeeds
+open_s!(procfs_open_masked_retry_ok, true, RETRY_OK, libc::ENOENT, 1);
+// masked handle, ENOENT, and the "unmasked" retry handle is masked again and also says ENOENT
+open_s!(procfs_open_masked_retry_still_masked, true, RETRY_ENOENT, libc::ENOENT, 2);
 
 // ---------------------------------------------------------------------------
 // open_follow: the ONLY place a link is followed on purpose (C05 / C06 O6.5 / C07 O7.3)
@@ -559,7 +606,7 @@ fn named_statx_ok() -> bool {
 macro_rules! of_h {
     ($name:ident, $l:expr) => {
         #[kani::proof]
-        #[kani::unwind(8)]
+        #[kani::unwind(18)]
         #[kani::stub(crate::procfs::ProcfsHandle::readlink, crate::procfs::ProcfsHandle::k_readlink)]
         #[kani::stub(crate::procfs::ProcfsHandle::open, crate::procfs::ProcfsHandle::k_ph_open)]
         #[kani::stub(crate::syscalls::statx, k_statx)]
@@ -581,7 +628,7 @@ of_h!(procfs_open_follow_notlink, P_FAIL);
 macro_rules! new_h {
     ($name:ident, $body:block) => {
         #[kani::proof]
-        #[kani::unwind(8)]
+        #[kani::unwind(18)]
         #[kani::stub(crate::syscalls::fsopen, k_fsopen)]
         #[kani::stub(crate::syscalls::fsconfig_set_string, k_fsconfig_set_string)]
         #[kani::stub(crate::syscalls::fsconfig_create, k_fsconfig_create)]
